@@ -283,6 +283,10 @@ def run(ctx):
     check_collect(ctx, model)
     check_pool_side(ctx, model)
     check_paging_forwarded(ctx, model)
+    # Q8: the new epoch's total = what the collector sent + what is rolled over from the expiring epoch, and the rollover
+    # is the expiring epoch's `available` (the field that is then emptied), never re-derived from total - claimed (C09-D3)
+    from .C09 import check_reply as _dist_reply
+    _dist_reply(ctx.renamed({"C09-D3": "C10-Q8"}), model)
     # Q7: the take-rate switches of the collector can each be changed on their own ("nothing otherwise" once switched off)
     from .common import check_independent_optional_updates
     uv = ctx.view("fee_collector::commands::update_config", "C10-Q7")
